@@ -5,6 +5,7 @@ import (
 	"fmt"
 	"os"
 	"path/filepath"
+	"sort"
 	"strings"
 
 	"github.com/grafana/cog/internal/ast"
@@ -115,8 +116,24 @@ func (pipeline *Pipeline) interpolateParameters() {
 func (pipeline *Pipeline) interpolate(input string) string {
 	interpolated := input
 
-	for key, value := range pipeline.Parameters {
-		interpolated = strings.ReplaceAll(interpolated, "%"+key+"%", value)
+	// Parameters are replaced in a fixed order, and again for as long as a replacement
+	// brought in another placeholder (a parameter whose value refers to another
+	// parameter): the result must not depend on the iteration order of the map.
+	names := make([]string, 0, len(pipeline.Parameters))
+	for name := range pipeline.Parameters {
+		names = append(names, name)
+	}
+	sort.Strings(names)
+
+	for range len(names) + 1 {
+		previous := interpolated
+		for _, name := range names {
+			interpolated = strings.ReplaceAll(interpolated, "%"+name+"%", pipeline.Parameters[name])
+		}
+
+		if interpolated == previous {
+			break
+		}
 	}
 
 	return interpolated
